@@ -3,17 +3,26 @@
 ID = "C17"
 _FILES = [("pkg/session/zz_verif_c17_test.go", "harness/C17/zz_verif_c17_test.go")]
 HARNESSES = [dict(name="session", pkg="./pkg/session/", test="TestVerifC17", files=_FILES, timeout=600),
-             dict(name="session_race", pkg="./pkg/session/", test="TestVerifC17", files=_FILES, timeout=900, race=True)]
+             dict(name="session_race", pkg="./pkg/session/", test="TestVerifC17", files=_FILES, timeout=900, race=True),
+             dict(name="ipoe", pkg="./internal/ipoe/", test="TestVerifC17Callers", timeout=600,
+                  files=[("internal/ipoe/zz_verif_c17_test.go", "harness/C17/zz_verif_c17_ipoe_test.go")]),
+             dict(name="pppoe", pkg="./internal/pppoe/", test="TestVerifC17Callers", timeout=600,
+                  files=[("internal/pppoe/zz_verif_c17_test.go", "harness/C17/zz_verif_c17_pppoe_test.go")])]
 MODEL_NEEDS_IMPL = True
 RULE = ("seq: random sequential histories (1..40 ops) of Claim/Release/IsOwner/Lookup by 2..5 sessions of both protocols "
         "(plus rare foreign protocol strings, empty session ids, Owner.Key different from the claimed key) over 1..4 tuples "
         "drawn from a pool with colliding and non-colliding shard hashes, same MAC on different C-VLANs, VLAN 0/65535; "
-        "interleaved with shard-index, stored-tuple-count and MakeTupleKey (MAC length 0..8) observations; compared exactly. "
+        "interleaved with stored-tuple-count (every stored tuple must sit in the shard shardFor names) and MakeTupleKey (MAC "
+        "length 0..8) observations, compared exactly, and shard-index observations, accepted when in 0..15 and the same "
+        "for the same tuple (the hash itself is an implementation choice; agreement with the modelled hash is only counted). "
         "conc/rconc: 2..8 goroutines x 2..14 ops on 1..3 tuples run against the real Registry (rconc under -race), half of "
         "them with a disturber that makes the workers queue behind the shard mutex; the recorded invocation/response "
         "history plus quiescent final reads is searched for a linearization against the extracted model. Non-trivial: "
         "seq case with a displaced owner reported; conc case in which two operations on the same tuple overlapped in "
-        "real time. Distinct: by case text.")
+        "real time. ipoe/pppoe: the components' own call sites (claimTuple/releaseTuple, addToIndexes/removeFromIndexes) on "
+        "a real Registry with a recording event bus, interleaved with claims/releases by the other protocol; MAC slices of "
+        "length 0..7, MixedAccess on/off; published terminate events compared exactly (non-trivial: at least one event). "
+        "Distinct: by case text.")
 TRUSTED = ["sync.RWMutex provides mutual exclusion (premise can_acquire of the small-step semantics in Atomic.v)",
            "sync/atomic counter used for invocation/response stamps is sequentially consistent",
            "OCaml linearizability search (ocaml/C17_run.ml) — a bug there can only raise an alarm or miss a non-linearizable "
@@ -179,6 +188,19 @@ def gen_cases(rng, tier, budget):
     nseq = budget or (1200 if quick else 20000)
     nconc = (budget // 4) if budget else (220 if quick else 4000)
     nrace = (budget // 20) if budget else (40 if quick else 500)
+    for who in ("ipoe", "pppoe"):
+        other = "pppoe" if who == "ipoe" else "ipoe"
+        k = POOL[0]
+        # cross-protocol eviction, same-protocol takeover (no event), not mixed access (no-op), stale release
+        cases.append("%s x %s %s %s C 100 10 02aabbcc0001 %s 1 l %s y %s %s %s l %s" % (
+            who, k, hx(other), hx("s9"), hx("s1"), k, k, hx(other), hx("s9"), k))
+        cases.append("%s x %s %s %s C 100 10 02aabbcc0001 %s 1 l %s" % (who, k, hx(who), hx("s9"), hx("s1"), k))
+        cases.append("%s x %s %s %s C 100 10 02aabbcc0001 %s 0 l %s R 100 10 02aabbcc0001 %s 0 l %s" % (
+            who, k, hx(other), hx("s9"), hx("s1"), k, hx("s1"), k))
+        cases.append("%s C 100 10 02aabbcc0001 %s 1 x %s %s %s R 100 10 02aabbcc0001 %s 1 l %s" % (
+            who, hx("s1"), k, hx(other), hx("s9"), hx("s1"), k))
+        for _ in range(150 if quick else 3000):
+            cases.append(gen_callers(rng, who))
     for _ in range(nseq):
         cases.append(gen_seq(rng))
     for _ in range(nconc):
@@ -189,10 +211,35 @@ def gen_cases(rng, tier, budget):
 
 
 def route(case):
-    return "session_race" if case.startswith("rconc") else "session"
+    h = case.split(" ", 1)[0]
+    return {"rconc": "session_race", "ipoe": "ipoe", "pppoe": "pppoe"}.get(h, "session")
 
 
-OPLEN = {"c": 5, "r": 5, "i": 5, "l": 2, "s": 2, "m": 4, "n": 1}
+def gen_callers(rng, who):
+    """the component's own claim/release calls interleaved with registry calls by other parties"""
+    other = "pppoe" if who == "ipoe" else "ipoe"
+    tuples = [(100, 10, "02aabbcc0001"), (100, 11, "02aabbcc0001"), (100, 10, "02aabbcc0011"), (65535, 0, "ffffffffffff")]
+    tuples = rng.sample(tuples, rng.randint(1, 3))
+    ops = []
+    for _ in range(rng.randint(1, 16)):
+        s, c, m = rng.choice(tuples)
+        k = key(s, c, m)
+        x = rng.random()
+        if x < 0.4:
+            mac = m if rng.random() < 0.9 else rng.choice(["-", m[:4], m + "aa"])
+            ops.append("%s %d %d %s %s %d" % ("C" if rng.random() < 0.65 else "R", s, c, mac,
+                                               hx(rng.choice(SIDS[:3] + [""])), rng.random() < 0.85))
+        elif x < 0.75:
+            p = other if rng.random() < 0.7 else rng.choice([who] + ODD_PROTOS)
+            ops.append("%s %s %s %s" % ("x" if rng.random() < 0.7 else "y", k, hx(p), hx(rng.choice(SIDS[:3]))))
+        else:
+            ops.append("l %s" % k)
+    for s, c, m in tuples:
+        ops.append("l %s" % key(s, c, m))
+    return who + " " + " ".join(ops)
+
+
+OPLEN = {"c": 5, "r": 5, "i": 5, "l": 2, "s": 2, "m": 4, "n": 1, "C": 6, "R": 6, "x": 4, "y": 4}
 
 
 def split_ops(toks):
@@ -247,6 +294,8 @@ def overlaps(case, impl):
     """number of pairs of operations on the same tuple that overlapped in real time"""
     if not impl.startswith("H"):
         return 0
+    if " | " in impl:
+        return sum(overlaps(case, h) for h in impl.split(" | "))
     _, _, progs = parse_conc(case)
     recs = [(inv, res, progs[t][k][1]) for t, k, inv, res, _ in history(impl) if t < len(progs) and k < len(progs[t])]
     recs.sort()
@@ -261,12 +310,29 @@ def overlaps(case, impl):
 
 
 def nontrivial(case, out):
+    if case.startswith(("ipoe", "pppoe")):
+        return "@" in out
     if case.startswith("seq"):
         return " o:" in (" " + out)
     return overlaps(case, out) > 0
 
 
 def classify(case, impl, model):
+    if impl.startswith("hang-skipped"):
+        return "G", "case not run: the harness stopped after 5 hanging cases"
+    if impl.startswith("hang"):
+        return "P", "the call never returned (a method left the shard mutex locked, or deadlock); specification: %s" % model[:200]
+    if impl.startswith("panic"):
+        return "P", "the implementation panicked: %s" % impl[:200]
+    if case.startswith(("ipoe", "pppoe")):
+        it, mt = impl.split(), model.split()
+        ops = split_ops(case.split()[1:])
+        diff = [i for i in range(min(len(it), len(mt))) if it[i] != mt[i]]
+        if not diff:
+            return "P", "caller history: %d results, model %d" % (len(it), len(mt))
+        i = diff[0]
+        return "P", "%s caller: op #%d (%s) gave %s, the specification gives %s" % (
+            case.split()[0], i, " ".join(ops[i]), it[i], mt[i])
     if case.startswith("seq"):
         it, mt = impl.split(), model.split()
         ops = split_ops(case.split()[1:])
@@ -274,7 +340,7 @@ def classify(case, impl, model):
             return "P", "sequential history: implementation printed %d results, model %d: impl=%r" % (len(it), len(mt), impl[:200])
         diff = [i for i in range(len(it)) if it[i] != mt[i]]
         if diff and all(ops[i][0] == "s" for i in diff):
-            return "G", "shardFor picks another shard than the modelled hash at op #%d (%s): impl=%s model=%s (not a contract)" % (
+            return "P", "shardFor is out of range or not a function of the tuple at op #%d (%s): impl=%s (modelled hash gives %s)" % (
                 diff[0], " ".join(ops[diff[0]]), it[diff[0]], mt[diff[0]])
         i = [d for d in diff if ops[d][0] != "s"][0] if diff else 0
         return "P", "sequential history: op #%d (%s) returned %s, the specification gives %s" % (
@@ -286,20 +352,23 @@ def classify(case, impl, model):
 
 def shrink(case):
     t = case.split()
-    if t[0] == "seq":
+    if t[0] in ("seq", "ipoe", "pppoe"):
         ops = split_ops(t[1:])
         n = len(ops)
         if n > 4:
             for a, b in ((0, n // 2), (n // 2, n), (n // 4, n), (0, 3 * n // 4)):
-                yield "seq " + " ".join(" ".join(o) for o in ops[a:b])
+                yield t[0] + " " + " ".join(" ".join(o) for o in ops[a:b])
         for i in range(n):
             r = ops[:i] + ops[i + 1:]
             if r:
-                yield "seq " + " ".join(" ".join(o) for o in r)
+                yield t[0] + " " + " ".join(" ".join(o) for o in r)
         return
     head, flags, progs = parse_conc(case)
     nt = len(progs) - 1
-    # a concurrent failure may need several attempts: every candidate is offered 3 times
+    # a concurrent failure may need several attempts: shrunk candidates repeat the scenario 40 times
+    if "x" not in flags:
+        flags += "x40"
+        yield emit_conc(head, flags, progs)
     cands = []
     for i in range(nt):
         if nt > 2:
@@ -314,21 +383,26 @@ def shrink(case):
             if len(progs[i]) > 1 or i == nt:
                 cands.append(progs[:i] + [progs[i][:j] + progs[i][j + 1:]] + progs[i + 1:])
     for c in cands:
-        s = emit_conc(head, flags, c)
-        yield s
-        yield s + " "          # same case, run again (trailing blank keeps the text distinct)
-        yield s + "  "
+        yield emit_conc(head, flags, c)
 
 
 def distribution(cases, impl):
-    d = {"seq": 0, "conc": 0, "rconc": 0, "ops": 0, "claim": 0, "release": 0, "isowner": 0, "lookup": 0,
+    d = {"seq": 0, "conc": 0, "rconc": 0, "ipoe": 0, "pppoe": 0, "caller_claims": 0, "caller_releases": 0,
+         "eviction_events": 0, "ops": 0, "claim": 0, "release": 0, "isowner": 0, "lookup": 0,
          "shard_obs": 0, "count_obs": 0, "makekey": 0, "displaced_reported": 0, "claims_nil": 0,
          "conc_ops": 0, "conc_with_overlap": 0, "overlapping_same_tuple_pairs": 0, "max_threads": 0,
-         "isowner_true": 0, "lookup_nil": 0}
+         "isowner_true": 0, "lookup_nil": 0, "shard_obs_equal_to_modelled_hash": 0, "hang": 0}
     names = {"c": "claim", "r": "release", "i": "isowner", "l": "lookup", "s": "shard_obs", "n": "count_obs", "m": "makekey"}
     for c, o in zip(cases, impl):
         t = c.split()
         d[t[0]] += 1
+        d["hang"] += o.startswith("hang")
+        if t[0] in ("ipoe", "pppoe"):
+            for op, r in zip(split_ops(t[1:]), o.split()):
+                d["caller_claims"] += op[0] == "C"
+                d["caller_releases"] += op[0] == "R"
+                d["eviction_events"] += r.count("@")
+            continue
         if t[0] == "seq":
             ops = split_ops(t[1:])
             res = o.split()
@@ -336,10 +410,11 @@ def distribution(cases, impl):
             _, _, progs = parse_conc(c)
             d["max_threads"] = max(d["max_threads"], len(progs) - 1)
             ops, res = [], []
-            if o.startswith("H"):
-                for tt, k, _, _, r in history(o):
-                    ops.append(progs[tt][k])
-                    res.append(r)
+            for hh in o.split(" | "):
+                if hh.startswith("H"):
+                    for tt, k, _, _, r in history(hh):
+                        ops.append(progs[tt][k])
+                        res.append(r)
             d["conc_ops"] += len(ops)
             ov = overlaps(c, o)
             d["overlapping_same_tuple_pairs"] += ov
@@ -353,4 +428,6 @@ def distribution(cases, impl):
                 d["isowner_true"] += 1
             if op[0] == "l" and r == "nil":
                 d["lookup_nil"] += 1
+            if op[0] == "s" and r == "s%d" % shard_of(op[1]):
+                d["shard_obs_equal_to_modelled_hash"] += 1
     return d
